@@ -11,6 +11,7 @@
 #define NR 1
 #endif
 #define NF (NW + NR)
+#define K_CHECK_EARLY_WAKE
 #include "kernel_contract.h"
 #include "fiber_signal.h"
 fiber_multi_signal_t ms;
